@@ -24,7 +24,8 @@ PROPS["C01"] = dict(
     # the compared observables are exactly what the property fixes (verdict, unifier up to renaming, resolved answer, order, call log):
     # a disagreement with the proved model on a case is a failing input
     mismatch_is_input=True,
-    model="Unify.v",
+    model="Unify.v = gen/MicroGen.v (translated from micro/walk.go, exts.go, unify.go on every run; MicroGenSpec.v)",
+    gens=[gens.gen_micro],
     harness=[dict(name="main", n_quick=2500, n_thorough=2500, shards_quick=1, shards_thorough=12)],
     trusted=["symbols/strings are interned injectively to numbers by the harness; variables are identified by Index alone (as assv/Variable.Equal do)",
              "the harness's independent reference unifier (direct oracle for verdict / most-general)"],
@@ -87,7 +88,8 @@ PROPS["C08"] = dict(
     # the compared observables are exactly what the property fixes (verdict, unifier up to renaming, resolved answer, order, call log):
     # a disagreement with the proved model on a case is a failing input
     mismatch_is_input=True,
-    model="Reify.v; GCore.v (grewrite: transcription of gomini rewrite over Reflect.v)",
+    model="Reify.v (walkstar/reifys = gen/MicroGen.v, translated from micro/walk.go, reify.go on every run); GCore.v (grewrite: transcription of gomini rewrite over Reflect.v)",
+    gens=[gens.gen_micro],
     harness=[dict(name="main", n_quick=1500, n_thorough=2500, shards_quick=1, shards_thorough=8)],
     trusted=_PROG_TRUSTED + _GOMINI_TRUSTED,
     assumptions=["reified names are the ordinary symbols _k (a user symbol _k is indistinguishable from a reified variable)"],
